@@ -20,7 +20,11 @@ Fixpoint sch_tok (s : pystr) : option pattern :=
   | [] => Some []
   | SL c :: r =>
     match r with
-    | SStar :: r' => option_map (cons (StarG (codes_of c))) (sch_tok r')
+    | SStar :: r' =>
+      match r' with
+      | SQuest :: r'' => option_map (cons (StarL (codes_of c))) (sch_tok r'')      (* X*? lazy *)
+      | _ => option_map (cons (StarG (codes_of c))) (sch_tok r')
+      end
     | _ => option_map (cons (Atom (codes_of c))) (sch_tok r)
     end
   | SOpen :: r => option_map (cons Open) (sch_tok r)
@@ -100,6 +104,14 @@ Lemma tok_letters' w r : nostar r ->
   sch_tok (map SL w ++ r) = option_map (app (map (fun c => Atom (codes_of c)) w)) (sch_tok r).
 Proof. apply tok_letters. Qed.
 
+Definition noquest (r : pystr) : Prop := match r with SQuest :: _ => False | _ => True end.
+
+Lemma noquest_app w r : noquest r -> noquest (map SL w ++ r).
+Proof. destruct w; cbn; auto. Qed.
+
+Lemma tok_star c r : noquest r -> sch_tok (SL c :: SStar :: r) = option_map (cons (StarG (codes_of c))) (sch_tok r).
+Proof. intros H. cbn [sch_tok]. destruct r as [|y t]; [reflexivity|]. destruct y; try reflexivity. contradiction. Qed.
+
 (* ---------- the texts ------------------------------------------------------------------------------------ *)
 
 Definition Ns (k : nat) : pystr := map SL (repeat cN k).
@@ -166,7 +178,7 @@ Proof.
   cbn [sch_tok].
   rewrite tok_letters' by exact I. cbn [sch_tok]. repeat rewrite <- app_assoc.
   rewrite tok_letters' by (apply nostar_app; exact I).
-  rewrite tok_letters' by exact I. cbn [sch_tok].
+  rewrite tok_letters' by exact I. rewrite tok_star by (apply noquest_app; apply noquest_app; exact I).
   rewrite tok_letters' by (apply nostar_app; exact I).
   rewrite tok_letters' by exact I. cbn [sch_tok].
   rewrite tok_letters' by exact I. cbn [sch_tok option_map].
@@ -266,7 +278,7 @@ Proof.
     cbn [sch_tok].
     rewrite tok_letters' by exact I. cbn [sch_tok]. repeat rewrite <- app_assoc.
     rewrite tok_letters' by (apply nostar_app; exact I).
-    rewrite tok_letters' by exact I. cbn [sch_tok].
+    rewrite tok_letters' by exact I. rewrite tok_star by (apply noquest_app; apply noquest_app; exact I).
     rewrite tok_letters' by (apply nostar_app; exact I).
     rewrite tok_letters' by exact I. cbn [sch_tok].
     rewrite tok_letters' by exact I. cbn [sch_tok option_map].
